@@ -105,8 +105,18 @@ func (n *BitcoinNode) handleVersion(ctx context.Context, header *wire.MessageHea
 	// 	return errors.Wrapf(ErrNotFullService, "0x%016x", uint64(msg.Services))
 	// }
 
-	n.handshakeChannel <- msg // trigger handshake action
+	n.triggerHandshake(msg)
 	return nil
+}
+
+// triggerHandshake passes a handshake message to the handshake thread. It doesn't wait when the
+// channel is full, which happens when the node keeps sending these messages after the handshake
+// thread has finished and is no longer receiving them, so that handling messages can't be blocked.
+func (n *BitcoinNode) triggerHandshake(msg wire.Message) {
+	select {
+	case n.handshakeChannel <- msg: // trigger handshake action
+	default:
+	}
 }
 
 func (n *BitcoinNode) handleVerack(ctx context.Context, header *wire.MessageHeader,
@@ -117,7 +127,7 @@ func (n *BitcoinNode) handleVerack(ctx context.Context, header *wire.MessageHead
 		return errors.Wrap(err, "read message")
 	}
 
-	n.handshakeChannel <- msg // trigger handshake action
+	n.triggerHandshake(msg)
 	return nil
 }
 
